@@ -15,7 +15,8 @@ DECIDED = ["R13a rollback runs to the end (loop-exit classification)",
            "R13c pushed command and rollback arm are inverse (TABLE, MIR aggregates x HIR match arms)",
            "R13d displaced alias bindings are recorded (DOM)",
            "R13e nothing reachable from rollback records undo commands",
-           "R13f undo commands are recorded in the order of their mutations"]
+           "R13f undo commands are recorded in the order of their mutations",
+           "R11a key-value store and indexes are co-updated with the per-(value, id) primitives, forward and in the rollback arms (shared with C11)"]
 UNDECIDED = ["equality of the database state before the transaction and after rollback (needs execution)",
              "correct payload of each pushed command (old value vs new value)"]
 
@@ -316,4 +317,7 @@ def run(ctx):
                    if ok_all else "`%s` inserts an alias without recording displaced bindings and a caller passes a "
                    "non-fresh id or an alias that was not looked up: %s" % (name, why), b.loc(i))
     ctx.floor("R13d", "aliases.insert sites outside rollback", n_ins, 2)
+    # the index entries a rollback restores are exactly those the forward step removed (R11a, shared with C11)
+    from rules import C11
+    C11.index_maintenance_rule(ctx)
     return 0
